@@ -1430,7 +1430,8 @@ func (ctx Ctx) exprSpecial(e ast.Expr, isSpecial bool) coq.Expr {
 	case *ast.UnaryExpr:
 		return ctx.unaryExpr(e)
 	case *ast.ParenExpr:
-		return ctx.expr(e.X)
+		// v, ok := (m[k]) is the two-valued lookup as well
+		return ctx.exprSpecial(e.X, isSpecial)
 	case *ast.StarExpr:
 		return ctx.derefExpr(e.X)
 	case *ast.TypeAssertExpr:
